@@ -144,6 +144,20 @@ def build_design(job, tag):
     return mods
 
 
+def build_late(md, tag):
+    """a module like those of build_design whose primitive instances may be instance ARRAYS (`arr`: n)"""
+    m = h.Module(name=f"{md['name']}_{tag}")
+    m.add(h.Port(name="a")); m.add(h.Port(name="b")); m.add(h.Signal(name="c")); m.add(h.Signal(name="d"))
+    for it in md["insts"]:
+        conns = {p: m.get(n) for p, n in it["conns"].items()}
+        tgt = mk_prim_call(it["prim"], it["params"])
+        if it.get("arr"):
+            m.add(h.InstanceArray(tgt, it["arr"])(**conns), name=it["n"])
+        else:
+            m.add(tgt(**conns), name=it["n"])
+    return m
+
+
 class Ids:
     def __init__(self):
         self.objs = []
@@ -201,8 +215,25 @@ def do_design(job):
     except Exception as e:
         out["err"] = dict(phase="build", **err(e))
         return out
+    late = job.get("late")
+    if late is not None:
+        # a history the walker's own callers produce (HierarchyWalker.visit_instance, pdk.compile): an instance of an
+        # ELABORATED parent is re-targeted at a module that has never been elaborated (it still holds instance arrays);
+        # then the design is compiled.  What `pre` shows of the late module is its elaborated form, taken from a twin.
+        try:
+            ms = copies[0]
+            fresh = build_late(late["mod"], f"j{job['id']}c0")
+            twin = build_late(late["mod"], f"j{job['id']}t0")
+            h.elaborate(twin)
+            ms[job["top"]].instances[late["inst"]].of = fresh
+            ms.append(fresh)
+        except Exception as e:
+            out["err"] = dict(phase="build", **err(e))
+            return out
     ids = Ids()
     out["pre"] = [report_design(ms, ids) for ms in copies]
+    if late is not None:
+        out["pre"][0][-1]["insts"] = report_design([twin], Ids())[0]["insts"]
     via = job.get("via", "direct")
     try:
         for top in tops:
